@@ -254,6 +254,26 @@ func filler(fill byte, n int) (*packets.Publish, []byte) {
 	return p, b
 }
 
+type fillerPkt struct {
+	p *packets.Publish
+	b []byte
+}
+
+var fillers = func() []fillerPkt {
+	var fs []fillerPkt
+	for i, n := range []int{3, 200, 3000} {
+		p, b := filler(byte(0xA0+i), n)
+		fs = append(fs, fillerPkt{p, b})
+	}
+	return fs
+}()
+
+var fillerRaw = [][]byte{
+	{0x10, 0x13, 0, 4, 'M', 'Q', 'T', 'T', 5, 2, 0, 60, 5, 0x11, 0xee, 0xee, 0xee, 0xee, 0, 1, 'z'},
+	{0x82, 0x0b, 0x12, 0x34, 0x00, 0, 5, 'e', 'e', '/', 'e', 'e', 1},
+	{0x40, 0x0a, 0x12, 0x34, 0x10, 0x06, 0x1f, 0, 3, 'e', 'e', 'e'},
+}
+
 // churn makes the codec take and release pooled buffers of several sizes, overwriting whatever they held
 func churn(kept []packets.Packet) {
 	for _, q := range kept {
@@ -261,22 +281,13 @@ func churn(kept []packets.Packet) {
 			pack(q)
 		}
 	}
-	for i, n := range []int{0, 7, 64, 300, 5000} {
-		fp, fb := filler(byte(0xA0+i), n)
-		pack(fp)
-		for _, v := range []byte{packets.Version5, packets.Version311} {
-			if q, err, _ := readOne(v, fb); err == nil {
-				pack(q)
-			}
+	for _, f := range fillers {
+		pack(f.p)
+		if q, err, _ := readOne(packets.Version5, f.b); err == nil {
+			pack(q)
 		}
 	}
-	for _, raw := range [][]byte{
-		{0x10, 0x13, 0, 4, 'M', 'Q', 'T', 'T', 5, 2, 0, 60, 5, 0x11, 0xee, 0xee, 0xee, 0xee, 0, 1, 'z'},
-		{0x82, 0x0b, 0x12, 0x34, 0x00, 0, 5, 'e', 'e', '/', 'e', 'e', 1},
-		{0xa2, 0x0a, 0x12, 0x34, 0x00, 0, 5, 'e', 'e', '/', 'e', 'e'},
-		{0x40, 0x0a, 0x12, 0x34, 0x10, 0x06, 0x1f, 0, 3, 'e', 'e', 'e'},
-		{0xe0, 0x09, 0x04, 0x07, 0x1f, 0, 4, 'e', 'e', 'e', 'e'},
-	} {
+	for _, raw := range fillerRaw {
 		if q, err, _ := readOne(packets.Version5, raw); err == nil {
 			pack(q)
 		}
@@ -303,7 +314,6 @@ func (d *codecDrv) keep(ver byte, datas [][]byte) string {
 		ks = append(ks, k)
 		churn(live)
 	}
-	churn(live)
 	churn(live)
 	var out []string
 	for _, k := range ks {
